@@ -99,6 +99,9 @@ RS_LabelRange(o)  == beta > 0 => \A i \in DOMAIN o.slots :
                         IF cfg.clustering THEN o.slots[i].lab >= 0 /\ o.slots[i].lab < clus.K
                                           ELSE o.slots[i].lab = 0
 
+\* every active particle carries the label that the model which produced the proposal modes assigns to that particle
+RS_LabelsFromModel(o) == beta > 0 => o.labelsFromModel
+
 \* ---- MutatePrior.  o = [slots, dEvals, calls, nInf, zInHull]
 MP_Count(o)    == Len(o.slots) = cfg.np
 MP_Coherent(o) == \A i \in DOMAIN o.slots : Coherent(o.slots[i].rec)
@@ -165,7 +168,8 @@ RW_Clauses(o) == [RW_Iter |-> RW_Iter(o), RW_FirstZero |-> RW_FirstZero(o), RW_M
 TR_Clauses(o) == [TR_Skip |-> TR_Skip(o), TR_Branch |-> TR_Branch(o), TR_PredictFitted |-> TR_PredictFitted(o),
                   TR_Cadence |-> TR_Cadence(o), TR_FitSets |-> TR_FitSets(o), TR_Cap |-> TR_Cap(o),
                   TR_ModesOK |-> TR_ModesOK(o), TR_ModesExist |-> TR_ModesExist(o)]
-RS_Clauses(o) == [RS_WholeCopies |-> RS_WholeCopies(o), RS_Count |-> RS_Count(o), RS_LabelRange |-> RS_LabelRange(o)]
+RS_Clauses(o) == [RS_WholeCopies |-> RS_WholeCopies(o), RS_Count |-> RS_Count(o), RS_LabelRange |-> RS_LabelRange(o),
+                  RS_LabelsFromModel |-> RS_LabelsFromModel(o)]
 MP_Clauses(o) == [MP_Count |-> MP_Count(o), MP_Coherent |-> MP_Coherent(o), MP_NoInf |-> MP_NoInf(o),
                   MP_Calls |-> MP_Calls(o), MP_Evals |-> MP_Evals(o), MP_LogzHull |-> MP_LogzHull(o)]
 MB_Clauses(o) == [MB_SameSlots |-> MB_SameSlots(o), MB_Labels |-> MB_Labels(o), MB_ModesOK |-> MB_ModesOK(o),
